@@ -56,8 +56,8 @@ ACTORS = [
      f"impl<T> A<T> where T: {BOUND}", "A<String>", 'A { seed: 7, calls: 0, t: "x".to_string() }', "self.calls += 1;", "(self.seed, self.calls)"),
 ]
 MSGS = [
-    ("plain", "pub struct Msg { pub fail: bool, pub v: u32 }", "Msg", "Msg { fail: {f}, v: 3 }", "m.v"),
-    ("generic", "pub struct Wrap<X> { pub inner: X, pub fail: bool }", "Wrap<u32>", "Wrap { inner: 3u32, fail: {f} }", "m.inner"),
+    ("plain", "pub struct Msg { pub fail: bool, pub park: bool, pub v: u32 }", "Msg", "Msg { fail: {f}, park: {p}, v: 3 }", "m.v"),
+    ("generic", "pub struct Wrap<X> { pub inner: X, pub fail: bool, pub park: bool }", "Wrap<u32>", "Wrap { inner: 3u32, fail: {f}, park: {p} }", "m.inner"),
 ]
 
 PRELUDE = """#![allow(dead_code, unused_imports, clippy::all)]
@@ -75,11 +75,12 @@ def program(i, ret, attr, actor, msg):
     ak, atext, _ = attr
     ck, decl, implh, conc, init, bump, state = actor
     mk, mdecl, mty, mlit, mval = msg
+    lit = lambda f, p="false": mlit.replace("{f}", f).replace("{p}", p)
     arrow = f" -> {rspell}" if rspell else ""
     if rspell is None:
-        body = "self.bump(); let _ = (m.fail, v);"
+        body = "self.bump(); if m.park { macrocorpus::park().await; } let _ = (m.fail, v);"
     else:
-        body = f"self.bump(); if m.fail {{ {errx} }} else {{ {okx} }}"
+        body = f"self.bump(); if m.park {{ macrocorpus::park().await; }} if m.fail {{ {errx} }} else {{ {okx} }}"
     src = f"""// program {i}: attr={ak} ret={rk} actor={ck} msg={mk}
 {PRELUDE}
 {decl}
@@ -114,19 +115,29 @@ pub async fn run() -> String {{
     let started: {conc} = r.ask(GetAll).await.unwrap();
     let start_ok = started == init;
     let l0 = macrocorpus::err_logs();
-    let ask_ok = format!("{{:?}}", r.ask({mlit.replace("{f}", "false")}).await.unwrap());
-    let ask_err = format!("{{:?}}", r.ask({mlit.replace("{f}", "true")}).await.unwrap());
+    let ask_ok = format!("{{:?}}", r.ask({lit("false")}).await.unwrap());
+    let ask_err = format!("{{:?}}", r.ask({lit("true")}).await.unwrap());
     let l1 = macrocorpus::err_logs();
-    r.tell({mlit.replace("{f}", "false")}).await.unwrap();
+    r.tell({lit("false")}).await.unwrap();
     let _: (u32, u32) = r.ask(GetState).await.unwrap(); // barrier: the tell has been handled
     let l2 = macrocorpus::err_logs();
-    r.tell({mlit.replace("{f}", "true")}).await.unwrap();
+    r.tell({lit("true")}).await.unwrap();
     let (_, calls): (u32, u32) = r.ask(GetState).await.unwrap();
     let l3 = macrocorpus::err_logs();
     let text = macrocorpus::last_err_text();
     r.stop().await.unwrap();
     let completed = jh.await.map(|x| x.is_completed()).unwrap_or(false);
-    format!("p{i} start_ok={{start_ok}} ask_ok={{ask_ok}} ask_err={{ask_err}} logs_ask={{}} logs_tell_ok={{}} logs_tell_err={{}} calls={{calls}} completed={{completed}} text={{:?}}", l1 - l0, l2 - l1, l3 - l2, text)
+    // a second instance: the handler of a tell is suspended when kill() is called and then returns its Err - the
+    // handler's value is reported after the tell like any other (kill waits for the hook in progress)
+    let (r2, jh2) = rsactor::spawn::<{conc}>(init.clone());
+    let l4 = macrocorpus::err_logs();
+    r2.tell({lit("true", "true")}).await.unwrap();
+    let parked = macrocorpus::wait_parked().await;
+    r2.kill().unwrap();
+    macrocorpus::release();
+    let killed = jh2.await.map(|x| x.was_killed()).unwrap_or(false);
+    let l5 = macrocorpus::err_logs();
+    format!("p{i} start_ok={{start_ok}} ask_ok={{ask_ok}} ask_err={{ask_err}} logs_ask={{}} logs_tell_ok={{}} logs_tell_err={{}} calls={{calls}} completed={{completed}} parked={{parked}} killed={{killed}} logs_tell_err_kill_pending={{}} text={{:?}}", l1 - l0, l2 - l1, l3 - l2, l5 - l4, text)
 }}
 """
     return src
